@@ -24,7 +24,22 @@ OTHER = {"C06-D": "C11",     # template field lost over dump / reload: C11's sta
          "C05-K": "C20",     # the element file's type names lower-cased by the loader: the two information models disagree (C20; C03 too)
          "C05-L": "C03",     # strings cut at the first NUL by Interpret: the decode itself is wrong (C03 / C06), the JSON carries it faithfully
          "C10-K": "C04",     # a per-message memo of looked-up templates: which definition decodes a data set (C04; C03 too)
-         "C12-L": "C10"}     # v9 templates renewed in place while another worker decodes with them: a data race on the cache (C10)
+         "C12-L": "C10",     # v9 templates renewed in place while another worker decodes with them: a data race on the cache (C10)
+         # round 7
+         "C03-N": "C12",     # the IPFIX worker queues its encode buffer without a copy (what is published: C12)
+         "C04-N": "C11",     # templates expire 30 minutes after their announcement: shown by a cache file found again later (C11)
+         "C06-N": "C11",     # the same for NetFlow v9
+         "C06-M": "C11",     # exporter address stored as net.IP: 4-octet exporters lose their templates over Dump / GetCache (C11)
+         "C05-N": "C16",     # the IPFIX worker returns its receive buffer when the mirror queue is full (mirroring: C16, C12)
+         "C07-N": "C16",     # the same in the sFlow worker
+         "C10-N": "C04",     # v9 announcements ordered by the header's sequence number: an exporter restart keeps the old template (C04)
+         "C11-M": "C15",     # Dump skipped when "nothing changed", scope fields not compared: needs three runs of the collector (C15)
+         "C12-M": "C04",     # withdrawal deletes a slot in the middle of a probe chain (C04)
+         "C12-N": "C16",     # the mirror dispatcher pools AND forwards copies of other-family exporters (the mirror's path: C16)
+         "C13-N": "C16",     # the sFlow worker waits for room in the mirror queue (mirroring must not stop decoding: C16)
+         "C15-M": "C11",     # variable-length flag of a template field not saved with the cache (Dump / GetCache round trip: C11)
+         "C15-N": "C10",     # unchanged templates refreshed under the shard's read lock: map write during Dump (C10)
+         "C16-N": "C13"}     # an empty datagram is not handed to the workers: received but not counted (C13)
 # judged outside the properties (see DESIGN.md section 9): not expected to be detected
 OUTSIDE = {"C17-E"}
 
